@@ -14,6 +14,7 @@ from ..classify import default_classifier
 from ..errors import (
     CircuitOpenError,
     ErrorClass,
+    RetryExhaustedError,
     StopReason,
 )
 from .base import _normalize_classification
@@ -154,6 +155,9 @@ def classify_for_breaker(exc: BaseException, retry: Any) -> ErrorClass:
 
     Uses the retry's classifier if available, otherwise falls back to default_classifier.
     """
+    if isinstance(exc, RetryExhaustedError):
+        # A nested policy gave up: count its final failure class, as call() does.
+        return exc.last_class or ErrorClass.UNKNOWN
     if retry is not None:
         return _normalize_classification(retry.classifier(exc)).klass
     return default_classifier(exc)
